@@ -491,7 +491,7 @@ def run(ctx, build):
         return
     if not readonly_volume_probe(ctx, _FFS):
         return
-    nhist = 30 if ctx.thorough else 8
+    nhist = 120 if ctx.thorough else 8
     if ctx.widen:
         nhist *= 2
     for h in range(nhist):
@@ -546,7 +546,7 @@ def run(ctx, build):
                 pass
 
     # ---- real threads on disjoint sub-trees: the result equals the serial result ------------------
-    rounds = 6 if ctx.thorough else 2
+    rounds = 20 if ctx.thorough else 2
     from nobodd.fs import FatFileSystem
     for r in range(rounds):
         g = fatimg.Geometry(rng.choice(['fat12', 'fat16', 'fat32']), 300, spc=1, bps=512, nfats=2, root_entries=128, type_string=True)
